@@ -22,7 +22,7 @@ func init() {
 		Rules: []RuleDef{
 			{ID: "C13.R1", Min: 1, Doc: "per-item accounting by path enumeration of one iteration of the item loop (from the loop body entry back to the header)", Run: c13r1},
 			{ID: "C13.R2", Min: 1, Doc: "scalar switches agree: type sets of the comma-ok assertions on data[1] (value) and data[0] (timestamp) are equal", Run: c13r2},
-			{ID: "C13.R3", Min: 3, Doc: "unchecked assertions are dominated by the ok edge of a checked assertion of the same type on the same slot; the dispatched line is built as metric + \" \" + value + \" \" + timestamp", Run: c13r3},
+			{ID: "C13.R3", Min: 2, Doc: "unchecked assertions are dominated by the ok edge of a checked assertion of the same type on the same slot; the dispatched line is built as metric + \" \" + value + \" \" + timestamp", Run: c13r3},
 			{ID: "C13.R5", Min: 1, Doc: "one decoder per frame: the receiver of every Decoder.Decode call in the pickle input is the result of ogorek.NewDecoder constructed inside every loop that contains the Decode call (directly, or handed to a helper from such a place) — a decoder kept across frames carries its memo along, and protocol 4 resolves memo references by position", Run: c13r5},
 			{ID: "C13.R4", Min: 3, Doc: "framing primitives: binary.Read(r, BigEndian, *uint32) (or io.ReadFull) for the length; payload loop exit test lengthRead == lengthTotal; checkProtocol truth table over the peeked prefix bytes (reject-direction only)", Run: c13r4},
 		},
@@ -279,6 +279,9 @@ func c13r3(c *Check) {
 			}
 			c.Judge(guarded, fmt.Sprintf("input.Pickle.Handle unchecked assertion .(%s) #%d", types.TypeString(ta.AssertedType, nil), n), c.At(ta), "repeats a checked assertion of the same type on the same slot", "a type assertion without comma-ok is applied to data decoded from the network without a guarding type test: a crafted pickle panics the relay")
 		})
+	}
+	if n == 0 {
+		c.Hold("input.Pickle.Handle unchecked assertions", c.AtFn(fn), "the item functions contain no type assertion without comma-ok (type switches bind the value)")
 	}
 	// scalar formatting: ints verbatim (%d), float values to six decimals (%f), float timestamps as integers (%.0f)
 	got := map[string]bool{}
